@@ -10,6 +10,7 @@ import time
 import vlib
 from props import statelib
 from props import topiclib as T
+from props import c01burst
 from props.statelib import kvs
 
 
@@ -497,6 +498,11 @@ def run(ctx):
         run_load_paths(ctx)
         if rp is not None:
             ctx.coverage.setdefault("trusted_base", []).append("harness/overlay/server/zz_verif_c01x_test.go: p2p/sys load-path driver")
+            ctx.finish()
+    if ok_r and ok_m and ctx.proof_ok() and (rp is None or rp.get("part") == "flight"):
+        c01burst.run_flight(ctx, monitor)
+        if rp is not None:
+            ctx.coverage.setdefault("trusted_base", []).append("harness/overlay/server/zz_verif_c01b_test.go: burst / unload-race driver")
             ctx.finish()
     ctx.violations = [v for v in ctx.violations if v["key"] != "proof-broken"]   # re-raised by run_stateful
     ctx.coq_props = lambda extra_files=(): proof
